@@ -49,7 +49,10 @@ def thicknesses(n, unequal):
     if not unequal:
         return [2.0] * n
     pat = [1.0, 2.0, 1.5, 2.5, 0.5, 3.0]
-    return [pat[i % len(pat)] for i in range(n)]
+    th = [pat[i % len(pat)] for i in range(n)]
+    if n >= 3 and n % 2 == 1:
+        th[-1] = th[0]               # unequal slices whose first and last thickness agree (a "looks uniform" shortcut must not fire)
+    return th
 
 
 def run_case(c, builder, detector, unequal, lazy_too=True, crystal=False, ncfg=1):
